@@ -228,12 +228,16 @@ def items_in(src, toks, pairs, lo, hi):
             continue
         if kind == "macro_rules":
             # macro_rules! name { ... }
+            mname = None
             while k < hi and toks[k].text not in OPEN:
+                if toks[k].kind == "id" and mname is None:
+                    mname = toks[k].text
                 k += 1
             close = pairs[k]
             i = close + 1
             if i < hi and toks[i].text == ";":
                 i += 1
+            res.append(Item("macro_rules", mname, toks[start_i].start, toks[i - 1].end, "", toks[k].start, toks[close].start, (k + 1, close)))
             continue
         if k < hi and toks[k].kind == "id":
             name = toks[k].text
